@@ -142,10 +142,12 @@ class L1_plus_L2(BasePenalty):
 
     def alpha_max(self, gradient0):
         """Return penalization value for which 0 is solution."""
+        if self.l1_ratio == 0.:
+            return np.inf  # pure ridge: 0 is a solution only if the gradient vanishes
         if self.positive:
             # with a positivity constraint only negative gradients move a coefficient away from 0
-            return max(0., np.max(-gradient0))
-        return np.max(np.abs(gradient0))
+            return max(0., np.max(-gradient0)) / self.l1_ratio
+        return np.max(np.abs(gradient0)) / self.l1_ratio
 
 
 class WeightedL1(BasePenalty):
